@@ -88,6 +88,9 @@ type Case struct {
 	// Observe > 0: a caller-written option placed after the first Observe-1 options looks at the
 	// metadata it is handed, in a decode with a Destination and in one without.
 	Observe int `json:"observe,omitempty"`
+	// ReadFirst: the graphic's first instructions read colour registers (a copy of a register, a
+	// blend with one) before any path has been started.
+	ReadFirst bool `json:"read_first,omitempty"`
 }
 
 // rawRGBA: the four values stored as they are (what a caller-written option may put in the palette).
@@ -141,6 +144,15 @@ func buildGraphic(c Case) ([]byte, error) {
 		enc.ClosePathEndPath()
 	}
 	k := 0
+	if c.ReadFirst && len(c.Uses) > 0 {
+		u := uint8(c.Uses[0])
+		enc.SetCSel((u + 33) & 63)
+		enc.SetCReg(0, false, ivg.CRegColor(u))
+		enc.SetCReg(1, false, ivg.BlendColor(0x80, 0xc0|u, 0x7f))
+		square(0, k)
+		square(1, k+1)
+		k += 2
+	}
 	for _, i := range c.Uses {
 		u := uint8(i)
 		// untouched initial register contents
@@ -522,6 +534,10 @@ func TestOptions(t *testing.T) {
 		if rapid.IntRange(0, 2).Draw(t, "observe") == 0 {
 			c.Observe = 1 + rapid.IntRange(0, no).Draw(t, "observeat")
 			labels = append(labels, "caller-written-option-observes-the-metadata")
+		}
+		if rapid.IntRange(0, 2).Draw(t, "readfirst") == 0 {
+			c.ReadFirst = true
+			labels = append(labels, "graphic-reads-a-colour-register-before-its-first-path")
 		}
 		subOpt.See(c, no > 0 && touched, harness.HashJSON(c), labels...)
 		subOpt.Run(t, c)
